@@ -45,6 +45,8 @@ Definition dispatch (f : Z) (x : sx) : sx :=
                       (to_list (fun s => (to_option to_nat (nth_sx 0 s), to_option to_nat (nth_sx 1 s)))
                                (nth_sx 1 x)));
             of_str (ensure_newline (to_str (nth_sx 0 x)))]
+  | 7 => (* the specification of C04_splice: characters outside every span *)
+      of_str (uncovered (to_str (nth_sx 0 x)) (to_list (to_pair to_nat to_nat) (nth_sx 1 x)))
   | _ => sx_err
   end.
 
